@@ -13,7 +13,7 @@ from . import core, gen, refqr, channel
 
 PROP = 'C03'
 N_LAYOUTS = len(gen.LAYOUTS)  # 168
-QUICK_RUNS = N_LAYOUTS + 152
+QUICK_RUNS = N_LAYOUTS + 472
 ASSUMPTIONS = [
     'sim.refqr (reference reader, own copy of ISO Table 9, BCH/Golay encoders, Berlekamp-Massey decoder) is correct',
     'the comparison is against what the symbol itself carried, not against the content passed to make (C01 is not claimed)',
@@ -88,7 +88,7 @@ def gen_scenario(batch_seed, i, tier):
     else:
         content, kw = _sender_sampled(rng, tier)
         target = None
-    nplans = 4 if tier == 'quick' else 48
+    nplans = 6 if tier == 'quick' else 48
     kinds = [k for k in channel.DAMAGE_KINDS if rng.random() < 0.7] or ['cw_random']
     return {'prop': PROP, 'seed': seed, 'index': i, 'target': target,
             'sender': {'content': core.enc(content), 'kw': core.enc(kw)},
